@@ -2748,6 +2748,28 @@ LEAN_OBLIGATIONS.update({
         partial_hypotheses=["emission stage only, under the explicit hypothesis TreeWF (no name/numeral spelling starts with `--`, no chunk directly under if/repeat); "
                             "that parser output satisfies TreeWF and that layout and final text keep the comment pieces: T2 and oracle streams"],
     ),
+    "C14": dict(
+        modules=["Tumfl.Props.C14"],
+        obligations=["Tumfl.Props.C14_noninterference", "Tumfl.Inst.no_shared_writes", "Tumfl.Inst.format_leaves_arguments"],
+        extractors=["SharedState"],
+        tie_names=["T1:SharedState (static scan of the whole package for shared mutable objects and reachable writes)"],
+        partial_hypotheses=["the scan does not see setattr/globals()/C-level caches; thread interleavings below the granularity of whole shared accesses are only sampled"],
+    ),
+    "C17": dict(
+        modules=["Tumfl.Props.C17"],
+        obligations=["Tumfl.Props.C17_links", "Tumfl.Props.C17_walk", "Tumfl.Inst.schema_links", "Tumfl.Inst.schema_walk", "Tumfl.Inst.schema_exercised", "Tumfl.Inst.schema_no_mixed"],
+        extractors=["Schema"],
+        tie_names=["T1:Schema (per class: structural slots by reflection, attributes yielded by ASTNode.__dir, linked and walked child slots, on a sample covering all 34 classes)",
+                   "T2:resolve (resolved trees)"],
+        partial_hypotheses=["replace_child and the tree after dependency resolution are checked by the oracle streams only"],
+    ),
+    "C18": dict(
+        modules=["Tumfl.Props.C17"],
+        obligations=["Tumfl.Props.C18_eq", "Tumfl.Inst.schema_eq", "Tumfl.Inst.schema_exercised", "Tumfl.Inst.schema_no_mixed"],
+        extractors=["Schema"],
+        tie_names=["T1:Schema"],
+        partial_hypotheses=["Token.__eq__ and AttributedName.__eq__ are part of the oracle stream, not of the generic model (atoms are compared as rendered values)"],
+    ),
     "C20": dict(
         modules=["Tumfl.Props.C16"],
         obligations=["Tumfl.Props.C16_positions"],
